@@ -263,7 +263,16 @@ func runC08(c *eng.Ctx) {
 					okDefault = true
 				}
 			}
-			if ap := builtinCall(info, as.Rhs[0], "append"); ap != nil && len(ap.Args) == 2 && ap.Ellipsis.IsValid() && eng.SelObj(info, ap.Args[1]) == prm && eng.IsField(info, ap.Args[0], eventTypes) {
+			if ap := builtinCall(info, as.Rhs[0], "append"); ap != nil && len(ap.Args) == 2 && ap.Ellipsis.IsValid() && eng.SelObj(info, ap.Args[1]) == prm {
+				// appended to the (emptied) field, or to a fresh empty slice
+				if eng.IsField(info, ap.Args[0], eventTypes) {
+					okGiven = true
+				}
+				if cl, isL := ast.Unparen(ap.Args[0]).(*ast.CompositeLit); isL && len(cl.Elts) == 0 {
+					okGiven = true
+				}
+			}
+			if cl, isC := ast.Unparen(as.Rhs[0]).(*ast.CallExpr); isC && eng.IsPkgFunc(eng.CalleeOf(info, cl), "slices", "Clone") && len(cl.Args) == 1 && eng.SelObj(info, cl.Args[0]) == prm {
 				okGiven = true
 			}
 			if eng.SelObj(info, as.Rhs[0]) == prm {
